@@ -7,6 +7,8 @@ import NucsProofs.Propagators.Counting
 import NucsProofs.Propagators.Dummy
 import NucsProofs.Propagators.Element
 import NucsProofs.Propagators.ExactOfSupport
+import NucsProofs.Propagators.GccExact
+import NucsProofs.Propagators.GccPortSound
 import NucsProofs.Propagators.GccReg
 import NucsProofs.Propagators.Lex
 import NucsProofs.Propagators.MinMax
